@@ -1,6 +1,6 @@
 """property -> rule sets (DESIGN §4)"""
 from engine import ok, bad, assumed, floor
-import r_lock, r_panic
+import r_lock, r_panic, r_errd, r_order, r_misc
 
 PROPS = {}
 
@@ -40,3 +40,57 @@ def c14(ctx):
                          'callback_sites': len(ctx.prog.callback_sites),
                          'once_closures': len(lm.once_closures)}}
     return obs, meta
+
+
+def eval_model(ctx):
+    if 'em' not in ctx.cache:
+        ctx.cache['em'] = r_order.EvalModel(ctx.prog)
+    return ctx.cache['em']
+
+
+@prop('C15',
+      'ERRD at every handler (dyn Fn) call site: the Result is the return value or is consumed by `?`; '
+      'ORDER-O4: from the failure edge of that `?` no child evaluation, handler call or context write is reachable; '
+      'LOCK-a: no guard live at a handler call (so unwinding out of a handler drops no guard in the panicking state: no poisoning, nothing left held); '
+      'LOCK-c (NO-POISON): no undischarged engine panic site inside any guard-live region; '
+      'UNWIND: no catch_unwind / abort / exit / panic=abort / user Drop impl / extern ABI, so a handler panic reaches the caller as an ordinary unwind.',
+      not_decided='the context contents after a fault (follows from C06 WCTX + C07 O4, claimed there)',
+      assumptions=COMMON_ASSUME)
+def c15(ctx):
+    lm = ctx.lm
+    em = eval_model(ctx)
+    obs = []
+    # ERRD at handler sites
+    hs_bodies = [b for b in ctx.prog.bodies if em.handler_sites(b)] if em.exec else []
+    obs += r_errd.rule_errd(hs_bodies, rule='ERRD', only=lambda c: c.is_virtual or c.is_indirect)
+    obs += r_order.rule_o4(em, ('handler',))
+    o2, n = r_lock.rule_lock_a(lm, want=('a', 'c'))
+    obs += o2
+    obs += r_lock.rule_once(lm)
+    obs += r_lock.rule_escape(lm)
+    obs += r_misc.rule_unwind(ctx)
+    obs += r_lock.rule_floors(lm)
+    obs += r_order.rule_floors(em)
+    return obs, {'analysed': {'guard_live_call_sites': n, 'handler_sites': sum(len(em.handler_sites(b)) for b in em.bodies),
+                              'evaluator_bodies': len(em.bodies)}}
+
+
+@prop('C07',
+      'ORDER over every evaluator body (ExprAST::exec and the local bodies below it that evaluate children, call handlers or write the context). '
+      'Child-evaluation sites are the calls to the public ExprAST::exec; each receives a provenance (field of the node\'s variant, item of a forward iteration over it, tuple component) '
+      'traced through helper parameters to the dispatch. O1: lower field / key-before-value dominates, or mutually exclusive; only forward std iterators directly over the child vector. '
+      'O2: no field site in a CFG cycle, no two sites of equal provenance on one path, item sites re-executed only through the iterator step. '
+      'O3: then/else sites mutually unreachable, dominated by the condition site and by the switch on its Bool payload. '
+      'O4: from the failure edge of the `?` after a child site or handler call no evaluation / call / context write is reachable. '
+      'O5: no child site reachable from a handler call. O7: every Ok path passes every unconditional child site; loops are left towards Ok only when the iterator is exhausted. '
+      'thorough additionally enumerates every acyclic path of these bodies and re-decides O1/O2/O3/O5 path by path (the two procedures must agree).',
+      not_decided='nothing of the statement; what handlers themselves do is out of scope',
+      assumptions=COMMON_ASSUME)
+def c07(ctx):
+    em = eval_model(ctx)
+    obs, n = r_order.rule_order(em)
+    obs += r_order.rule_o4(em, ('child', 'handler'))
+    obs += r_order.rule_floors(em)
+    # ERRD: every child / handler result is ?-consumed or returned at all
+    obs += r_errd.rule_errd(em.bodies, rule='ERRD')
+    return obs, {'analysed': {'child_sites': n, 'evaluator_bodies': len(em.bodies)}}
